@@ -193,16 +193,19 @@ Definition send_reply (c : N) (m : msg) : prog unit :=
 Definition send_ack (c : N) : prog unit :=
   alloc ;;; send_from_driver true c MAck.
 
-(* bus_driver_handle_hello: unique-name string (init, create_unique_client_name),
-   bus_connection_complete (name copy, client policy, per-uid count, loginfo
-   string; then the connection is active and nothing undoes that),
-   set_sender on the Hello message, welcome message (new_method_return,
-   append_args, send_from_driver), bus_registry_ensure *)
+(* bus_driver_handle_hello: bus_connections_check_limits (connections of this user), unique-name
+   string (init, create_unique_client_name), bus_connection_complete (name copy, client policy, the
+   per-uid count - hash insert, then counted and never taken back -, loginfo string; then the
+   connection is active and nothing undoes that), set_sender on the Hello message, welcome message
+   (new_method_return, append_args, send_from_driver), bus_registry_ensure *)
 Definition hello (cn : conn) : prog unit :=
   let c := c_id cn in
   if c_active cn then Fail EFailed else            (* "Already handled an Hello message" *)
+  b0 <- get ;;
+  if b_maxconns b0 <=? b_uidcount b0 then Fail ELimitsExceeded else
   allocs 2 ;;;
-  allocs 4 ;;; act (AComplete c) ;;;
+  allocs 3 ;;; act AUidInc ;;;
+  alloc ;;; act (AComplete c) ;;;
   alloc ;;;
   allocs 2 ;;; send_from_driver true c (MHelloReply c) ;;;
   b <- get ;;
@@ -304,7 +307,7 @@ Definition handler (b : bus) (e : event) : option (N * prog unit) :=
 
 Definition connect (b : bus) : bus :=
   mkBus (b_conns b ++ [mkConn (b_next b) false [] []]) (b_services b) (b_pending b) (b_next b + 1)
-        (b_maxnames b) (b_maxrules b) (b_maxreplies b).
+        (b_maxnames b) (b_maxrules b) (b_maxreplies b) (b_uidcount b) (b_maxconns b).
 
 (* the bus handles one event while the allocations selected by F fail *)
 Definition step_f (F : N -> bool) (b : bus) (e : event) : outcome :=
@@ -323,7 +326,8 @@ Definition fail_set (l : list N) : N -> bool := fun i => existsb (N.eqb i) l.
 Definition step (b : bus) (e : event) : outcome := step_f no_fail b e.
 Definition step_oom (k : N) (b : bus) (e : event) : outcome := step_f (fail_at k) b e.
 
-Definition init_bus (maxnames maxrules maxreplies : N) : bus := mkBus [] [] [] 0 maxnames maxrules maxreplies.
+Definition init_bus_full (maxnames maxrules maxreplies maxconns : N) : bus := mkBus [] [] [] 0 maxnames maxrules maxreplies 0 maxconns.
+Definition init_bus (maxnames maxrules maxreplies : N) : bus := init_bus_full maxnames maxrules maxreplies 256.
 
 (* a history without failures; None if the bus stopped *)
 Fixpoint run (b : bus) (h : list event) : option bus :=
